@@ -89,6 +89,8 @@ type World struct {
 	overdue          bool // the forced-snapshot interval elapses before the loop's next deadline check
 	forced           int
 	txnBeforeLoad    int64
+	hdrSeen          map[string]string // raw values of LS-written DBIs at the last application commit / LS transaction
+	straddleKey      string
 	emptyLoad        bool
 	visits           map[string]int
 	idle             int
@@ -256,6 +258,20 @@ func buildRemotesQ(r *inst.Inst, tmp *world.Bucket) (n1 string, d1 []byte, n2 st
 	return names[0], d1, names[1], d2
 }
 
+// Judged reports whether a violation signature is to be reported by a check that owns the given
+// property prefixes ("c09", ...): its own oracles plus the generic ones (loop stuck, never idle, malformed DBI).
+func Judged(sig string, own ...string) bool {
+	if len(sig) > 4 && sig[0] == 'c' && sig[3] == ':' && sig[1] >= '0' && sig[1] <= '9' {
+		for _, o := range own {
+			if strings.HasPrefix(sig, o+":") {
+				return true
+			}
+		}
+		return false
+	}
+	return true
+}
+
 type Result struct {
 	Outcome string
 	Viols   []Viol
@@ -338,6 +354,7 @@ func (w *World) appOp(op string) {
 	}
 	w.commits++
 	w.commitAt = append(w.commitAt, w.hookLabel())
+	w.hdrSeen = w.hdrDump()
 }
 
 func (w *World) appView() map[string]map[string]string {
@@ -360,6 +377,46 @@ func (w *World) appView() map[string]map[string]string {
 		return out
 	}
 	return world.PlainContent(d, world.PickNative)
+}
+
+// hdrDump: the raw values of all DBIs whose values Lightning Stream writes (native mode: the application
+// DBIs; shadow mode: the shadow DBIs).
+func (w *World) hdrDump() map[string]string {
+	out := map[string]string{}
+	for _, d := range w.A.Env.RawDump() {
+		if w.Cfg.Native == strings.HasPrefix(d.Name, "_sync") {
+			continue
+		}
+		for _, e := range d.Entries {
+			out[d.Name+"/"+string(e.Key)] = string(e.Val)
+		}
+	}
+	return out
+}
+
+// checkC14: every value written by the transaction Lightning Stream just committed carries that
+// transaction's id in its header (and a well-formed header).
+func (w *World) checkC14(at string) {
+	cur := w.hdrDump()
+	last := w.A.Env.LastTxnID()
+	for k, raw := range cur {
+		if w.hdrSeen[k] == raw {
+			continue
+		}
+		if w.straddleKey != "" && (k == w.straddleKey || k == world.ShadowPrefix+w.straddleKey) && w.Cfg.Native {
+			continue // written by the straddling application transaction itself
+		}
+		h, _, err := world.ReadHdr([]byte(raw))
+		if err != nil {
+			w.viol("c14:malformed-value-written", fmt.Sprintf("at %s: %s = %x: %v", at, k, raw, err))
+			continue
+		}
+		if int64(h.TxnID) != last {
+			w.viol("c14:header-txnid-differs-from-writing-transaction", fmt.Sprintf("at %s: %s was written by LMDB transaction %d but its header says transaction %d (application commits at %v)", at, k, last, h.TxnID, w.commitAt))
+		}
+	}
+	w.hdrSeen = cur
+	w.straddleKey = ""
 }
 
 // checkC03: whatever the application committed is still there.
@@ -517,6 +574,7 @@ func Run(cfg Cfg, ctx *explore.Ctx) Result {
 		w.B.Put(n2, []byte("\x1f\x8b this is not a snapshot"))
 	}
 	w.monitor("setup")
+	w.hdrSeen = w.hdrDump()
 	w.B.AfterMutate = func(op, name string) { w.monitor(op + " " + name) }
 	if cfg.TwoRemotes {
 		w.B.Put(qn1, qd1)
@@ -793,7 +851,10 @@ func (w *World) policy(appPoints map[string]bool) sched.Policy {
 				w.activity = true
 			case "load.beforeTxn":
 				w.txnBeforeLoad = w.A.Env.LastTxnID()
+			case "send.afterTxn":
+				w.checkC14(loop.Point)
 			case "load.afterTxn":
+				w.checkC14(loop.Point)
 				w.emptyLoad = w.A.Env.LastTxnID() == w.txnBeforeLoad
 			}
 			w.visits[loop.Point]++
@@ -946,6 +1007,7 @@ func (w *World) policy(appPoints map[string]bool) sched.Policy {
 func (w *World) startStraddle(op string) {
 	s := w.S
 	s.ExpectLMDBBlock = true
+	w.straddleKey = map[string]string{"put-b": "d/b", "del-a": "d/a"}[op]
 	started := make(chan struct{})
 	s.Go("straddle", func() {
 		// thread body: runs when first released (immediately below)
